@@ -903,7 +903,7 @@ class Engine:
                 return not_(v)
             if isinstance(v, SymList):
                 return len(v.items) == 0
-            return not v
+            return not_(self.as_cond(v))      # model objects of engine subclasses define their own truth value
         return self.ev(e)
 
     def ev_index(self, sl):
@@ -965,7 +965,7 @@ class Engine:
             if isinstance(v, Unknown):
                 return UNK
             if isinstance(e.op, ast.Not):
-                return not_(v) if (is_sym(v) or isinstance(v, (bool, int))) else (not v)
+                return not_(v) if (is_sym(v) or isinstance(v, (bool, int))) else not_(self.as_cond(v))
             if isinstance(e.op, ast.USub):
                 return binop('-', 0, v)
             if isinstance(e.op, ast.Invert):
